@@ -275,6 +275,42 @@ def wfn_section() -> str:
     )
 
 
+# ---------------------------------------------------------------------------------------------
+# WFX sections
+
+
+@section
+def wfx_section() -> str:
+    import re as _re
+
+    src, tree = _src("wfx")
+    x = L0.extract("wfx")
+    precs = set(_re.findall(r": ,\.(\d+)E\}", src))
+    if len(precs) != 1:
+        raise LookupError(f"WFX: real format specs with different precisions {precs}")
+    d = _func(tree, "dump_one")
+    steps = {}
+    for n in walk(d):
+        if isinstance(n, ast.For) and isinstance(n.iter, ast.Call) and ast.unparse(n.iter.func) == "range" and len(n.iter.args) == 3:
+            steps.setdefault(ast.unparse(n.iter.args[1]), n.iter.args[2].value)
+    per_i = {v for k, v in steps.items() if "prim_centers" in k or "prim_types" in k}
+    per_r = {v for k, v in steps.items() if "exponents" in k or "nbasis" in k}
+    if len(per_i) != 1 or len(per_r) != 1:
+        raise LookupError(f"WFX: items per line {steps}")
+    coords = next(fs for fn, fs in x.writes if fn == "dump_one" and any(f[0] == "other" and "item[0]" in f[1] for f in fs))
+    per_c = sum(1 for f in coords if f[0] == "other")
+    p = _func(tree, "parse_wfx")
+    consts = [n.value for n in walk(p) if isinstance(n, ast.Constant) and isinstance(n.value, str)
+              and not (isinstance(getattr(n, "_parent", None), ast.JoinedStr))]
+    # drop the docstring and the pieces of f-string error messages
+    doc = ast.get_docstring(p, clean=False)
+    fparts = {id(v) for n in walk(p) if isinstance(n, ast.JoinedStr) for v in n.values}
+    consts = [n.value for n in walk(p) if isinstance(n, ast.Constant) and isinstance(n.value, str) and id(n) not in fparts and n.value != doc]
+    ws = ",\n   ".join(f"({chars(fn)}, [{', '.join(L0._field_lean(f) for f in fields)}])" for fn, fields in x.writes)
+    return (f"def wfxL : WfxS.Layout := ⟨{precs.pop()}, {per_i.pop()}, {per_r.pop()}, {per_c}⟩\n\n"
+            f"def wfx_writes : List Write :=\n  [{ws}]\n\ndef wfx_parse_consts : List (List Char) := {strs(consts)}\n")
+
+
 def build_gen() -> str:
     out = ["import Iodata.Gen.Layouts", "import Iodata.Model.Fmt.AllW", "namespace Iodata.Gen.LayoutsW", "open Iodata.Fmt", ""]
     for fn in SECTIONS:
